@@ -28,6 +28,11 @@ SRC = ["SimpleSource", "IslandSource", "ComponentSource"]
 
 
 MUTANTS = [
+    ("column dtype taken from the first row", "AegeanTools/catalogs.py",
+     "            tab_dict[col_name] = [getattr(c, name, None) for c in catalog]",
+     "            vals = [getattr(c, name, None) for c in catalog]\n"
+     "            tab_dict[col_name] = np.array(vals, dtype=type(vals[0]))",
+     "C18-R10"),
     ("empty type ends the sqlite loop", "AegeanTools/catalogs.py",
      "            continue  # don't write empty tables",
      "            break  # don't write empty tables", "C18-R9"),
@@ -268,6 +273,7 @@ def run(ctx):
                           "simples)", node=s)
     ctx.floor("C18-R2", n2, 4, "consumers of classify_catalog")
     r9_independent(ctx, prog, cats)
+    r10_column_types(ctx, prog, cats)
     # ---------------------------------------------------------------- R3
     ctx.rule("C18-R3", "names ⊆ attributes assigned by the __init__ chain; "
              "as_list and the writer iterate `names`")
@@ -802,3 +808,37 @@ def r9_independent(ctx, prog, cats):
                                ("an earlier `%s`" % norm(rets[0])) if rets
                                else ""), node=c)
     ctx.floor("C18-R9", n, 2, "per-type write sites")
+
+
+def r10_column_types(ctx, prog, cats):
+    """the type of a table column is decided by all of its rows"""
+    ctx.rule("C18-R10", "first row atypical: where write_catalog builds the "
+             "table columns from the source list, no column is forced to a "
+             "dtype / converted with a type taken from ONE element "
+             "(dtype=type(vals[0]), astype(type(catalog[0].x))): an int "
+             "marker (-1) in the first row would truncate every later float "
+             "of that column")
+    n = 0
+    for q, fi in ctx.raw_prog().functions.items():
+        if fi.module != cats.name or "write_catalog" not in q:
+            continue
+        n += 1
+        bad = []
+        for c in ast.walk(fi.node):
+            if not isinstance(c, ast.Call):
+                continue
+            cand = [k.value for k in c.keywords if k.arg == "dtype"]
+            if isinstance(c.func, ast.Attribute) and c.func.attr == "astype":
+                cand += list(c.args)
+            for e in cand:
+                single = [x for x in ast.walk(e) if isinstance(x, ast.Subscript)
+                          and isinstance(x.slice, ast.Constant)
+                          and isinstance(x.slice.value, int)]
+                if single:
+                    bad.append((c, single[0]))
+        ctx.check("C18-R10", fi, "column types in " + fi.short, not bad,
+                  "`%s` takes the column type from the single element `%s`" %
+                  (norm(bad[0][0], 60) if bad else "",
+                   norm(bad[0][1]) if bad else ""),
+                  node=bad[0][0] if bad else fi.node)
+    ctx.floor("C18-R10", n, 1, "table-building functions of write_catalog")
